@@ -540,6 +540,7 @@ func init() {
 			complete := true
 			eval := func(c c07Case, size int) bool {
 				r.Evals.Add(1)
+				r.Journal(c)
 				r.Transitions.Add(1)
 				ok, sig, detail := c07Eval(c)
 				r.Distinct.Add(mustJSON(c))
@@ -555,6 +556,7 @@ func init() {
 			for _, sh := range c07ScaleShapes {
 				cs := c07ScaleCase{Kind: "scale", Shape: sh}
 				r.Evals.Add(3)
+				r.Journal(cs)
 				ok, sig, detail := c07ScaleEval(cs)
 				r.Distinct.Add("scale|" + sh)
 				if !ok {
@@ -739,6 +741,7 @@ func init() {
 						}
 						c := c07Case{Kind: "string", Parser: pn, Input: sb.String()}
 						r.Evals.Add(1)
+						r.Journal(c)
 						ok, sig, detail := c07Eval(c)
 						if !ok {
 							r.Fail(engine.Failure{Sig: sig, Case: c, Detail: detail, Size: 700000 + len(c.Input)})
@@ -750,6 +753,7 @@ func init() {
 				for a := 0; a < 256; a++ {
 					c := c07Case{Kind: "string", Parser: pn, InputB: []byte{byte(a)}}
 					r.Evals.Add(1)
+					r.Journal(c)
 					if ok, sig, detail := c07Eval(c); !ok {
 						r.Fail(engine.Failure{Sig: sig, Case: c, Detail: detail, Size: 700000})
 					}
@@ -758,6 +762,7 @@ func init() {
 					r.ParallelFor(65536, func(idx int) {
 						c := c07Case{Kind: "string", Parser: pn, InputB: []byte{byte(idx >> 8), byte(idx)}}
 						r.Evals.Add(1)
+						r.Journal(c)
 						if ok, sig, detail := c07Eval(c); !ok {
 							r.Fail(engine.Failure{Sig: sig, Case: c, Detail: detail, Size: 700001})
 						}
